@@ -217,6 +217,10 @@ def showView (v : View) : String :=
   let cor := ";".intercalate (v.corners.map (fun (c, l) => s!"{c}:" ++ "+".intercalate l))
   s!"P[{pats}] F[{facs}] E[{eds}] C[{cor}]"
 
+/-- `Operation.get_face(side)` for every side: the corners of `FACE_MAP[side]`, whatever was called before -/
+def showFaces : String :=
+  ";".intercalate (CBV.Gen.faceMap.map (fun e => e.1 ++ ":" ++ "-".intercalate (e.2.map toString)))
+
 def showCornerPatches (o : Op) : String :=
   ";".intercalate ((List.range 8).map (fun c => "+".intercalate (o.patchesAtCorner c)))
 
@@ -228,6 +232,11 @@ def applyCall (o : Op) (call : String) : Option Op :=
   | ["pcorner", c, l] => do
       let c ← c.toNat?
       if c < 8 then some (o.projectCorner c l) else none
+  | ["pcornerL", c, _listId, l] => do
+      -- the same label list object handed to several calls: the operation must behave as for separate lists
+      let c ← c.toNat?
+      if c < 8 then some (o.projectCorner c l) else none
+  | ["nface", _viewer] => some o   -- `get_normal_face` only reads the operation
   | _ => none
 
 /-- `c10.addr call;call;…` → the view, or `reject` when a call is rejected. -/
@@ -235,7 +244,7 @@ def handleAddr (args : List String) : Option String :=
   match args with
   | [calls] =>
       let r := (calls.splitOn ";").foldl (fun (o : Option Op) c => o.bind (applyCall · c)) (some {})
-      some (match r with | some o => showView o.view ++ " K[" ++ showCornerPatches o ++ "]" | none => "reject")
+      some (match r with | some o => showView o.view ++ " K[" ++ showCornerPatches o ++ "] G[" ++ showFaces ++ "]" | none => "reject")
   | _ => none
 
 def applyFaceOp (f : Face Nat Nat) (pos : List V3) (op : String) : Option (Face Nat Nat) :=
